@@ -21,16 +21,22 @@ from onnx import TensorProto as TP
 
 from harness import core
 from harness import lib_inline as L
+from harness import lib_inline_versions as LV
 
 # ------------------------------------------------------------------------------------------------
 # helpers on the real side
 # ------------------------------------------------------------------------------------------------
 
 _ORT = None
+_ORT_PLAIN = None
+ORT_FALLBACKS = {"unoptimised": 0}
 
 
 def ort_run(model: onnx.ModelProto, feeds: dict) -> list:
-    global _ORT
+    """The model under onnxruntime. Its graph optimiser has defects of its own on valid models (e.g.
+    `GetIndexFromName ... _new_reshape` on Shape/Flatten/Softmax/Reshape followed by a Reshape): a model it
+    refuses is tried again with the optimiser switched off before the refusal counts."""
+    global _ORT, _ORT_PLAIN
     import onnxruntime as ort
 
     if _ORT is None:
@@ -39,7 +45,18 @@ def ort_run(model: onnx.ModelProto, feeds: dict) -> list:
         so.intra_op_num_threads = 1
         so.inter_op_num_threads = 1
         _ORT = so
-    sess = ort.InferenceSession(model.SerializeToString(), _ORT, providers=["CPUExecutionProvider"])
+        so2 = ort.SessionOptions()
+        so2.log_severity_level = 4
+        so2.intra_op_num_threads = 1
+        so2.inter_op_num_threads = 1
+        so2.graph_optimization_level = ort.GraphOptimizationLevel.ORT_DISABLE_ALL
+        _ORT_PLAIN = so2
+    b = model.SerializeToString()
+    try:
+        sess = ort.InferenceSession(b, _ORT, providers=["CPUExecutionProvider"])
+    except Exception:  # noqa: BLE001
+        sess = ort.InferenceSession(b, _ORT_PLAIN, providers=["CPUExecutionProvider"])
+        ORT_FALLBACKS["unoptimised"] += 1
     return sess.run(None, feeds)
 
 
@@ -200,7 +217,7 @@ def gen_ctx(rng: random.Random, m: onnx.ModelProto) -> dict:
         "_extra_var": var_used,
         "_extra_node": node_used,
         "_adapt": {
-            "target": rng.choice([next((o.version for o in m.opset_import if o.domain in ("", "ai.onnx")), 17), 14, 17, 19, 21]),
+            "target": rng.choice([next((o.version for o in m.opset_import if o.domain in ("", "ai.onnx")), 17), 14, 17, 18, 19, 20, 21]),
             "extraVarNames": rng.sample(["q0", "q1", "Add_9_C", f"{node}__zz", "Inline_99__x"], rng.randrange(0, 3)),
         },
     }
@@ -442,6 +459,9 @@ class Infra(Exception):
 
 
 FORMS = ["once", "twice", "shared-callable", "chained", "if-body", "mixed-opset", "nested-if-twice", "loop-body", "history", "name-history"]
+# forms of the version family: an inner form built next to an operator that forces the target opset
+# (`mixed+<form>`), or next to an ai.onnx.ml operator of a later ai.onnx.ml version (`ml-mixed`)
+MIXED_FORMS = ["mixed+once", "mixed+twice", "mixed+chained", "mixed+if-body", "mixed+nested-if-twice", "mixed+loop-body", "ml-mixed"]
 
 
 def input_values(rng: random.Random, m: onnx.ModelProto) -> dict:
@@ -453,7 +473,10 @@ def input_values(rng: random.Random, m: onnx.ModelProto) -> dict:
         elif e == TP.INT64:
             vals[i.name] = np.array(rng.randrange(-5, 6), np.int64)
         else:
-            vals[i.name] = np.array([rng.randrange(-4, 5) + 0.25 * rng.randrange(4) for _ in range(2)], np.float32)
+            dims = (L.type_json(i.type) or {"t": [e, None]})["t"][1]
+            shape = [2] if dims is None else [d if isinstance(d, int) else 2 for d in dims]
+            n = int(np.prod(shape)) if shape else 1
+            vals[i.name] = np.array([rng.randrange(-4, 5) + 0.25 * rng.randrange(4) for _ in range(n)], np.float32).reshape(shape)
     return vals
 
 
@@ -472,12 +495,129 @@ def same(a, b) -> bool:
         return False
     if np.array_equal(a, b, equal_nan=a.dtype.kind == "f"):
         return True
-    return bool(a.dtype.kind == "f" and np.allclose(a, b, rtol=1e-5, atol=1e-6, equal_nan=True))
+    if a.dtype.kind != "f":
+        return False
+    # the built model and m run other kernels / fusions (converted operators, bodies): last-bit differences, which a
+    # subtraction of nearly equal values turns into absolute errors of the size of the tensor's scale * 1e-7
+    fin = np.abs(b[np.isfinite(b)])
+    scale = float(fin.max()) if fin.size else 0.0
+    return bool(np.allclose(a, b, rtol=1e-5, atol=1e-6 + 1e-5 * scale, equal_nan=True))
 
 
-def classify_build_error(m: onnx.ModelProto, e: BaseException) -> str:
+def all_nodes(g: onnx.GraphProto):
+    for nd in g.node:
+        yield nd
+        for a in nd.attribute:
+            if a.type == onnx.AttributeProto.GRAPH:
+                yield from all_nodes(a.g)
+            elif a.type == onnx.AttributeProto.GRAPHS:
+                for sg in a.graphs:
+                    yield from all_nodes(sg)
+
+
+def converter_blame(m: onnx.ModelProto, vals_list: list) -> Optional[str]:
+    """Known third-party defect: onnx.version_converter has no adapter for Hardmax 12 -> 13 (the operator
+    changed meaning: coerce-to-2D before 13, one axis from 13 on) and copies the node verbatim. A wrong
+    result is blamed on it only if the converter ALONE (no spox involved) changes what m computes on the
+    same input values."""
+    try:
+        opset = next((o.version for o in m.opset_import if o.domain in ("", "ai.onnx")), 17)
+        if opset >= 13 or not any(nd.op_type == "Hardmax" and nd.domain in ("", "ai.onnx") for nd in all_nodes(m.graph)):
+            return None
+        conv = onnx.version_converter.convert_version(m, 13)
+        for vals in vals_list:
+            a, b = ort_run(m, vals), ort_run(conv, vals)
+            if any(not same(x, y) for x, y in zip(a, b)):
+                return "version-converter:changes-meaning:Hardmax"
+    except Exception:  # noqa: BLE001
+        return None
+    return None
+
+
+def converter_invalid(m: onnx.ModelProto) -> Optional[str]:
+    """Known third-party defect: onnx.version_converter numbers the values it introduces per graph, so a body
+    and a body nested in it (or the top level) can both get `_v_<n>`: the converted model is not in SSA form.
+    Blamed only if the converter ALONE (no spox involved) turns m into a model onnx.checker refuses for that reason."""
+    try:
+        opset = next((o.version for o in m.opset_import if o.domain in ("", "ai.onnx")), 17)
+        for t in (14, 17, 18, 19, 20, 21):
+            if t <= opset:
+                continue
+            conv = onnx.version_converter.convert_version(m, t)
+            try:
+                onnx.checker.check_model(conv, full_check=True)
+            except Exception as e:  # noqa: BLE001
+                if "single static assignment" in str(e):
+                    return "version-converter:invalid-model:duplicate-names"
+    except Exception:  # noqa: BLE001
+        return None
+    return None
+
+
+def converter_asserts(m: onnx.ModelProto) -> Optional[str]:
+    """Known third-party defect: the Softmax / LogSoftmax 12 -> 13 adapter of onnx.version_converter replaces the
+    uses of the operator's result; when a use sits in a body capturing it, an internal assertion fails
+    (RuntimeError ... ir.h ... owningGraph). Blamed only if the converter ALONE raises it on m."""
+    try:
+        opset = next((o.version for o in m.opset_import if o.domain in ("", "ai.onnx")), 17)
+        for t in (14, 18, 21):
+            if t <= opset:
+                continue
+            try:
+                onnx.version_converter.convert_version(m, t)
+            except RuntimeError as e:
+                if "owningGraph" in str(e):
+                    return "version-converter:RuntimeError:captured-result"
+    except Exception:  # noqa: BLE001
+        return None
+    return None
+
+
+ML_LABEL_ENCODER_VERSION = {3: 2, 4: 4, 5: 4}  # spox ml module -> the version its label_encoder asks for
+
+
+def ml_bump(ml_module_version: int, op, x):
+    """The value of x (float), plus 0 computed by an ai.onnx.ml operator that forces ai.onnx.ml >= 2 / 4."""
+    import importlib
+
+    ml = importlib.import_module(f"spox.opset.ai.onnx.ml.v{ml_module_version}")
+    zero = ml.label_encoder(x, keys_floats=[1e30], values_floats=[0.0], default_float=0.0)
+    return op.add(x, zero)
+
+
+def ml_schema_differs(m: onnx.ModelProto, ml_module_version: Optional[int]) -> bool:
+    """m holds an ai.onnx.ml operator that is defined differently in the version the outer program asks for."""
+    if ml_module_version is None:
+        return False
+    try:
+        src = max((o.version for o in m.opset_import if o.domain == "ai.onnx.ml"), default=None)
+        tgt = ML_LABEL_ENCODER_VERSION.get(ml_module_version)
+        if src is None or tgt is None or src >= tgt:
+            return False
+        for nd in all_nodes(m.graph):
+            if nd.domain == "ai.onnx.ml":
+                a = onnx.defs.get_schema(nd.op_type, src, "ai.onnx.ml").since_version
+                b = onnx.defs.get_schema(nd.op_type, tgt, "ai.onnx.ml").since_version
+                if a != b:
+                    return True
+    except Exception:  # noqa: BLE001
+        return False
+    return False
+
+
+def classify_build_error(m: onnx.ModelProto, e: BaseException, ml_v: Optional[int] = None) -> str:
     ins = {i.name for i in m.graph.input}
     cls = type(e).__name__
+    if cls == "ValidationError" and ml_schema_differs(m, ml_v):
+        return "second-domain-version-clash:ValidationError"
+    if cls == "ValidationError" and "single static assignment" in str(e):
+        k = converter_invalid(m)
+        if k:
+            return k
+    if cls == "RuntimeError" and "owningGraph" in str(e):
+        k = converter_asserts(m)
+        if k:
+            return k
     if cls == "ConvertError":  # onnx.version_converter (adapt_inline), third-party
         return f"version-converter:{cls}:{'sparse' if 'Sparse tensors' in str(e) else 'other'}"
     if cls == "ScopeError":
@@ -573,7 +713,24 @@ def oracle_compose(m: onnx.ModelProto, form: str, seed: int) -> list[tuple[str, 
     ins = [i.name for i in m.graph.input]
     outs = [o.name for o in m.graph.output]
     opset = next((o.version for o in m.opset_import if o.domain in ("", "ai.onnx")), 17)
-    outer_v = max(opset, 17) if form != "mixed-opset" else rng.choice([v for v in (17, 18, 19, 20, 21) if v != opset])
+    label = form
+    mixed_v: Optional[int] = None  # every float result goes through an operator that exists only from this opset on
+    ml_v: Optional[int] = None  # ... and through an ai.onnx.ml operator of this spox ml module
+    if form.startswith("mixed+"):
+        form = form[len("mixed+"):]
+        mixed_v = rng.choice([v for v in (18, 18, 19, 20, 21) if v > opset])
+    elif form == "ml-mixed":
+        form = "once"
+        ml_v = rng.choice([3, 4])
+        mixed_v = rng.choice([None, 18, 19, 21])
+    if mixed_v is not None:
+        # collision seeking: a version another domain of m is imported at is a preferred target
+        other_vs = sorted({o.version for o in m.opset_import if o.domain not in ("", "ai.onnx") and 18 <= o.version <= 21 and o.version > opset})
+        if other_vs and rng.random() < 0.7:
+            mixed_v = rng.choice(other_vs)
+        outer_v = mixed_v
+    else:
+        outer_v = max(opset, 17) if form != "mixed-opset" else rng.choice([v for v in (17, 18, 19, 20, 21) if v != opset])
     op = L.opset_module(outer_v)
     float_ins = [i.name for i in m.graph.input if i.type.tensor_type.elem_type == TP.FLOAT]
     float_outs = [o.name for o in m.graph.output if o.type.tensor_type.elem_type == TP.FLOAT]
@@ -590,6 +747,13 @@ def oracle_compose(m: onnx.ModelProto, form: str, seed: int) -> list[tuple[str, 
 
     vals1 = input_values(rng, m)
     vals2 = {k: (-v if v.dtype != np.bool_ else np.array(not bool(v))) for k, v in vals1.items()}
+    fshape = tuple(vals1[float_ins[0]].shape) if float_ins else (2,)
+
+    blame_vals = [vals1, vals2]  # every input assignment m is evaluated on in this composition
+
+    def mismatch(default_key: str) -> str:
+        return converter_blame(m_ref, blame_vals) or default_key
+
     A = {i.name: arg_for(i) for i in m.graph.input}
     feeds = {f"arg_{j}": vals1[n] for j, n in enumerate(ins)}
     outer_in = {f"arg_{j}": A[n] for j, n in enumerate(ins)}
@@ -639,8 +803,9 @@ def oracle_compose(m: onnx.ModelProto, form: str, seed: int) -> list[tuple[str, 
                 x0 = A[float_ins[0]]
                 cur = vals1[float_ins[0]]
                 for _ in range(trips):
-                    cur = direct({n: (cur if n in float_ins else vals1[n]) for n in ins})[link]
-                    if np.asarray(cur).shape != (2,):
+                    blame_vals.append({n: (cur if n in float_ins else vals1[n]) for n in ins})
+                    cur = direct(blame_vals[-1])[link]
+                    if np.asarray(cur).shape != fshape:
                         return fails  # the state changes shape at run time: not a legal Loop state here
 
                 def body(i, c, x):
@@ -649,8 +814,8 @@ def oracle_compose(m: onnx.ModelProto, form: str, seed: int) -> list[tuple[str, 
 
                 (final,) = op.loop(op.const(np.array(trips, np.int64)), None, v_initial=[x0], body=body)
                 # build() wants a known shape for results; Loop's carried output may lose it
-                final = op.reshape(final, op.const(np.array([2], np.int64)))
-                results["res_final"], expected["res_final"] = final, np.asarray(cur).reshape(2)
+                final = op.reshape(final, op.const(np.array(fshape, np.int64)))
+                results["res_final"], expected["res_final"] = final, np.asarray(cur).reshape(fshape)
             elif form == "history":
                 # the same callable (same private copy) built into several programs with different
                 # opset surroundings, one after the other; the first program rebuilt at the end
@@ -670,7 +835,7 @@ def oracle_compose(m: onnx.ModelProto, form: str, seed: int) -> list[tuple[str, 
                     for k, o in enumerate(outs):
                         exp = d[o]
                         if not same(got[f"res_{k}"], exp):
-                            fails.append((f"result-mismatch:history", f"history step {step} (surroundings {v2}): output {k}: inlined {np.asarray(got[f'res_{k}']).tolist()} but m computes {np.asarray(exp).tolist()}"))
+                            fails.append((mismatch("result-mismatch:history"), f"history step {step} (surroundings {v2}): output {k}: inlined {np.asarray(got[f'res_{k}']).tolist()} but m computes {np.asarray(exp).tolist()}"))
                             break
                     if v2 is None:
                         b = built.SerializeToString(deterministic=True)
@@ -718,7 +883,7 @@ def oracle_compose(m: onnx.ModelProto, form: str, seed: int) -> list[tuple[str, 
                     bad = [k for k in exp if not same(got[k], exp[k])]
                     if bad:
                         k = bad[0]
-                        fails.append(("result-mismatch:name-history", f"name-history step {label}: output {k}: inlined {np.asarray(got[k]).tolist()} but m computes {np.asarray(exp[k]).tolist()}"))
+                        fails.append((mismatch("result-mismatch:name-history"), f"name-history step {label}: output {k}: inlined {np.asarray(got[k]).tolist()} but m computes {np.asarray(exp[k]).tolist()}"))
                         break
                 if m.SerializeToString(deterministic=True) != before:
                     fails.append(("m-modified", "name-history: the caller's model changed"))
@@ -728,10 +893,11 @@ def oracle_compose(m: onnx.ModelProto, form: str, seed: int) -> list[tuple[str, 
                 r1 = apply(f, A, npos, omit)
                 d1 = direct(vals1, omit)
                 link = float_outs[0]
-                if np.asarray(d1[link]).shape != (2,):
+                if np.asarray(d1[link]).shape != fshape:
                     return fails  # feeding it back is not a legal call at run time
                 A2 = {n: (r1[link] if n in float_ins else A[n]) for n in ins}
                 v2 = {n: (d1[link] if n in float_ins else vals1[n]) for n in ins}
+                blame_vals.append(v2)
                 r2 = apply(f, A2, len(ins), [])
                 d2 = direct(v2)
                 for k, o in enumerate(outs):
@@ -773,25 +939,32 @@ def oracle_compose(m: onnx.ModelProto, form: str, seed: int) -> list[tuple[str, 
                         results[f"res_{k}"], expected[f"res_{k}"] = bump(outer_v, r[o]), d[o]
                     else:
                         results[f"res_{k}"], expected[f"res_{k}"] = r[o], d[o]
+            if mixed_v is not None or ml_v is not None:
+                for k in list(results):
+                    if getattr(results[k].type, "dtype", None) == np.float32:
+                        if mixed_v is not None:
+                            results[k] = bump(mixed_v, results[k])
+                        if ml_v is not None:
+                            results[k] = ml_bump(ml_v, op, results[k])
             outer = build(outer_in, results)
     except Infra:
         raise
     except Exception as e:  # noqa: BLE001
-        fails.append((classify_build_error(m, e), f"{form}: building around inline(m) raised {type(e).__name__}: {str(e)[:300]}"))
+        fails.append((classify_build_error(m, e, ml_v), f"{label}: building around inline(m) raised {type(e).__name__}: {str(e)[:300]}"))
         outer = None
     if outer is not None:
         try:
             got = dict(zip([o.name for o in outer.graph.output], ort_run(outer, feeds)))
         except Exception as e:  # noqa: BLE001
-            fails.append((f"outer-model-rejected:{type(e).__name__}", f"{form}: onnxruntime refuses the built model: {str(e)[:300]}"))
+            fails.append((f"outer-model-rejected:{type(e).__name__}", f"{label}: onnxruntime refuses the built model (imports {[(o.domain, o.version) for o in outer.opset_import]}): {str(e)[:300]}"))
             got = None
         if got is not None:
             for k, exp in expected.items():
                 if not same(got[k], exp):
-                    fails.append((f"result-mismatch:{form}", f"{form}: output {k}: inlined {np.asarray(got[k]).tolist()} but m computes {np.asarray(exp).tolist()}"))
+                    fails.append((mismatch(f"result-mismatch:{label}"), f"{label}: output {k} (imports {[(o.domain, o.version) for o in outer.opset_import]}): inlined {np.asarray(got[k]).tolist()} but m computes {np.asarray(exp).tolist()}"))
                     break
     if m.SerializeToString(deterministic=True) != before:
-        fails.append(("m-modified", f"{form}: the caller's model changed"))
+        fails.append(("m-modified", f"{label}: the caller's model changed"))
     return fails
 
 
@@ -845,6 +1018,7 @@ def oracle_build_only(m: onnx.ModelProto, seed: int) -> list[tuple[str, str]]:
 
 
 HOSTILE_HIST: dict[str, int] = {}
+ESCALATE = False
 
 
 def oracle_hostile_names(m: onnx.ModelProto, seed: int, variants=None) -> list[tuple[str, str]]:
@@ -859,7 +1033,8 @@ def oracle_hostile_names(m: onnx.ModelProto, seed: int, variants=None) -> list[t
     ins = [i.name for i in m.graph.input]
     outs = [o.name for o in m.graph.output]
     inner = sorted({n for nd in m.graph.node for n in list(nd.output) + [nd.name]} | {i.name for i in m.graph.initializer}
-                   - set(ins) - set(outs) - {""}) or ["x"]
+                   - set(ins) - set(outs) - {""})
+    inner = [n for n in inner if n] or ["x"]
     vals = input_values(rng, m)
     try:
         d = dict(zip(outs, ort_run(m_ref, vals)))
@@ -894,7 +1069,7 @@ def oracle_hostile_names(m: onnx.ModelProto, seed: int, variants=None) -> list[t
             continue
         bad = [rk for rk, o in zip(res_keys, outs) if not same(got[rk], d[o])]
         if bad:
-            fails.append(("wrong-model-under-hostile-names", f"{variant}: names {arg_keys} -> {res_keys}: output {bad[0]} = {np.asarray(got[bad[0]]).tolist()} but m computes {np.asarray(d[outs[res_keys.index(bad[0])]]).tolist()}"))
+            fails.append((converter_blame(m_ref, [vals]) or "wrong-model-under-hostile-names", f"{variant}: names {arg_keys} -> {res_keys}: output {bad[0]} = {np.asarray(got[bad[0]]).tolist()} but m computes {np.asarray(d[outs[res_keys.index(bad[0])]]).tolist()}"))
         else:
             key = f"{variant}:built-correctly"
             HOSTILE_HIST[key] = HOSTILE_HIST.get(key, 0) + 1
@@ -1022,14 +1197,91 @@ def fixed_corner_models() -> list[tuple[onnx.ModelProto, dict]]:
     sp = H.make_sparse_tensor(NH.from_array(np.array([3.0], np.float32), "s"), NH.from_array(np.array([1], np.int64), ""), [2])
     out.append((mk([H.make_node("Add", ["x", "s"], ["y"])], [f2("x")], [f2("y")], opset=14, sparse_initializer=[sp]),
                 ["sparse-initializer", "opset-14"]))
-    return [(m, {"features": sorted(ft + ["corner"]), "runnable": True, "opset": m.opset_import[0].version, "kind": "corner"}) for m, ft in out]
+    # --- the version family: changed operators ONLY inside bodies, second domains, known converter defect
+    f3 = lambda n: H.make_tensor_value_info(n, TP.FLOAT, [2, 3, 4])  # noqa: E731
+    cb = bvi("c", TP.BOOL, [])
+    t_g = H.make_graph([H.make_node("ReduceMean", ["x"], ["tm"], axes=[1], keepdims=1), H.make_node("Sub", ["x", "tm"], ["t"])], "then_g", [], [f3("t")])
+    e_g = H.make_graph([H.make_node("Split", ["x"], ["ea", "eb"], axis=2), H.make_node("Concat", ["eb", "ea"], ["t"], axis=2)], "else_g", [], [f3("t")])
+    out.append((mk([H.make_node("If", ["c"], ["y0"], then_branch=t_g, else_branch=e_g), H.make_node("Add", ["y0", "x"], ["y"])],
+                   [f3("x"), cb], [f3("y")], opset=17), ["opset-17", "version-family", "sig@depth1", "placement:body-only"]))
+    # depth 2: Loop body holding an If whose branches hold the changed operators; top level: Loop, Constant, Mul only
+    t2 = H.make_graph([H.make_node("ReduceMax", ["xi"], ["tm"], axes=[0, 2], keepdims=1), H.make_node("Add", ["xi", "tm"], ["t"])], "then_g", [], [f3("t")])
+    e2 = H.make_graph([H.make_node("ReduceL2", ["xi"], ["tm"], axes=[-1], keepdims=1), H.make_node("Sub", ["xi", "tm"], ["t"])], "else_g", [], [f3("t")])
+    lb = H.make_graph([H.make_node("Identity", ["ci"], ["co"]), H.make_node("If", ["c"], ["xo"], then_branch=t2, else_branch=e2)], "loop_body",
+                      [bvi("it", TP.INT64, []), bvi("ci", TP.BOOL, []), f3("xi")], [bvi("co", TP.BOOL, []), f3("xo")])
+    out.append((mk([H.make_node("Constant", [], ["M"], value=NH.from_array(np.array(2, np.int64), "M")),
+                    H.make_node("Loop", ["M", "", "x"], ["y0"], body=lb), H.make_node("Mul", ["y0", "x"], ["y"])],
+                   [f3("x"), cb], [f3("y")], opset=16), ["opset-16", "version-family", "sig@depth2", "placement:body-only"]))
+    # same signature, other meaning: Softmax-11 (coerce to 2D) only inside an If body
+    t3 = H.make_graph([H.make_node("Softmax", ["x"], ["t"])], "then_g", [], [f3("t")])
+    e3 = H.make_graph([H.make_node("LogSoftmax", ["x"], ["t"], axis=0)], "else_g", [], [f3("t")])
+    sm = mk([H.make_node("If", ["c"], ["y"], then_branch=t3, else_branch=e3)], [f3("x"), cb], [f3("y")], opset=11)
+    sm.ir_version = 7
+    out.append((sm, ["opset-11", "version-family", "meaning@depth1", "placement:body-only"]))
+    # a custom-domain node (onnxruntime contrib operator) and an ai.onnx.ml 1 node next to a changed default-domain operator
+    two = H.make_model(H.make_graph(
+        [H.make_node("ReduceMin", ["x"], ["r"], axes=[1], keepdims=1), H.make_node("Gelu", ["r"], ["g"], domain="com.microsoft"),
+         H.make_node("Constant", [], ["s2"], value=NH.from_array(np.array([2, 4], np.int64), "s2")),
+         H.make_node("Constant", [], ["s3"], value=NH.from_array(np.array([2, 1, 4], np.int64), "s3")),
+         H.make_node("Reshape", ["g", "s2"], ["g2"]), H.make_node("Scaler", ["g2"], ["sc"], domain="ai.onnx.ml", offset=[0.5], scale=[2.0]),
+         H.make_node("Reshape", ["sc", "s3"], ["g3"]), H.make_node("Add", ["x", "g3"], ["y"])],
+        "g", [f3("x")], [f3("y")]), opset_imports=[H.make_operatorsetid("", 17), H.make_operatorsetid("com.microsoft", 1), H.make_operatorsetid("ai.onnx.ml", 1)], ir_version=8)
+    out.append((two, ["opset-17", "version-family", "second-domain:ai.onnx.ml", "second-domain:com.microsoft", "sig@depth0"]))
+    # no default-domain import at all (only contrib operators); the preamble Constant of spox is a default-domain node
+    oc = H.make_model(H.make_graph([H.make_node("Gelu", ["x"], ["g"], domain="com.microsoft"), H.make_node("BiasGelu", ["g", "w"], ["y"], domain="com.microsoft")],
+                                   "g", [f3("x")], [f3("y"), f3("x")], initializer=[NH.from_array(np.array([0.5, 1, 2, 3], np.float32), "w")]),
+                      opset_imports=[H.make_operatorsetid("com.microsoft", 1)], ir_version=8)
+    out.append((oc, ["version-family", "second-domain:com.microsoft", "no-default-domain-import", "output-is-input"]))
+    # a changed operator inside the body of a SequenceMap (function operator with a graph attribute, opset 17)
+    smb = H.make_graph([H.make_node("ReduceMean", ["e"], ["em"], axes=[1], keepdims=1), H.make_node("Sub", ["e", "em"], ["eo"])], "b", [f3("e")], [f3("eo")])
+    out.append((mk([H.make_node("SequenceConstruct", ["x", "x"], ["s"]), H.make_node("SequenceMap", ["s"], ["s2"], body=smb),
+                    H.make_node("Constant", [], ["i"], value=NH.from_array(np.array(1, np.int64), "i")), H.make_node("SequenceAt", ["s2", "i"], ["y"])],
+                   [f3("x")], [f3("y")], opset=17), ["opset-17", "version-family", "sig@depth1", "SequenceMap-body"]))
+    # known (third-party): Hardmax changed meaning at 13, the converter copies it verbatim
+    hm = mk([H.make_node("Hardmax", ["x"], ["y"])], [f3("x")], [f3("y")], opset=11)
+    hm.ir_version = 7
+    out.append((hm, ["opset-11", "version-family", "hardmax-pre-13"]))
+    # known (third-party): the Softmax 12 -> 13 adapter fails when the result is captured by a body
+    cap = mk([H.make_node("Softmax", ["x"], ["sx"]),
+              H.make_node("If", ["c"], ["y"], then_branch=H.make_graph([H.make_node("Neg", ["sx"], ["t"])], "then_g", [], [f3("t")]),
+                          else_branch=H.make_graph([H.make_node("Abs", ["sx"], ["t"])], "else_g", [], [f3("t")]))],
+             [f3("x"), cb], [f3("y")], opset=12)
+    cap.ir_version = 7
+    out.append((cap, ["opset-12", "version-family", "softmax-result-captured"]))
+    # known (third-party): values the converter introduces at two nesting levels get the same name
+    in2 = H.make_graph([H.make_node("Neg", ["u"], ["un0"]), H.make_node("Relu", ["un0"], ["un"]), H.make_node("ReduceMean", ["un"], ["um"], axes=[1], keepdims=1), H.make_node("Sub", ["u", "um"], ["t2"])], "then_g", [], [f3("t2")])
+    in3 = H.make_graph([H.make_node("Abs", ["u"], ["un0"]), H.make_node("Floor", ["un0"], ["un"]), H.make_node("ReduceMax", ["un"], ["um"], axes=[1], keepdims=1), H.make_node("Add", ["u", "um"], ["t2"])], "else_g", [], [f3("t2")])
+    lvl1 = lambda nm: H.make_graph([H.make_node("ReduceMin", ["x"], ["xm"], axes=[2], keepdims=1), H.make_node("Add", ["x", "xm"], ["u"]),  # noqa: E731
+                                    H.make_node("If", ["c"], ["t"], then_branch=in2, else_branch=in3)], nm, [], [f3("t")])
+    out.append((mk([H.make_node("If", ["c"], ["y"], then_branch=lvl1("then_g"), else_branch=lvl1("else_g"))], [f3("x"), cb], [f3("y")], opset=17),
+                ["opset-17", "version-family", "changed-operators-at-two-nesting-levels"]))
+    # known: ai.onnx.ml 1 LabelEncoder (classes_strings) next to an ai.onnx.ml >= 2 operator of the outer program
+    le = H.make_model(H.make_graph(
+        [H.make_node("Cast", ["x"], ["xi"], to=TP.INT64), H.make_node("LabelEncoder", ["xi"], ["xs"], domain="ai.onnx.ml", classes_strings=["a", "b", "c"], default_string="a"),
+         H.make_node("LabelEncoder", ["xs"], ["xj"], domain="ai.onnx.ml", classes_strings=["c", "b", "a"], default_int64=-7),
+         H.make_node("Cast", ["xj"], ["xf"], to=TP.FLOAT), H.make_node("Add", ["x", "xf"], ["y"])],
+        "g", [f3("x")], [f3("y")]), opset_imports=[H.make_operatorsetid("", 17), H.make_operatorsetid("ai.onnx.ml", 1)], ir_version=8)
+    out.append((le, ["opset-17", "version-family", "second-domain:ai.onnx.ml", "ml-1-label-encoder"]))
+    return [(m, {"features": sorted(ft + ["corner"]), "runnable": True, "opset": next((o.version for o in m.opset_import if o.domain in ("", "ai.onnx")), 17), "kind": "corner"}) for m, ft in out]
 
 
-def make_models(ck: core.Check, n_hand: int, n_spox: int):
+def make_models(ck: core.Check, n_hand: int, n_spox: int, n_vbody: int = 0):
     rng = ck.rng
     models = list(fixed_corner_models())
+    n_corner = len(models)
     dropped = 0
-    while len(models) < 11 + n_hand:
+    n_v = 0
+    while n_v < n_vbody:
+        # older opsets with the changed operators inside bodies / second domains (lib_inline_versions)
+        m, meta = LV.VersionGen(rng).model()
+        if valid(m, True, rng):
+            models.append((m, meta))
+            n_v += 1
+        else:
+            dropped += 1
+            if dropped > 5 * n_vbody + 20:
+                raise RuntimeError("version generator produces mostly invalid models")
+    while len(models) < n_corner + n_vbody + n_hand:
         m, meta = L.HandGen(rng).model()
         if valid(m, meta["runnable"], rng):
             models.append((m, meta))
@@ -1039,7 +1291,8 @@ def make_models(ck: core.Check, n_hand: int, n_spox: int):
                 raise RuntimeError("hand generator produces mostly invalid models")
     # every model is snapshotted as bytes the moment it exists; all later phases work on fresh copies
     snaps = [m.SerializeToString(deterministic=True) for m, _ in models]
-    library = [fresh(b) for b, (m, meta) in zip(snaps, models) if meta["runnable"] and len(m.graph.output) >= 1][:40]
+    library = [fresh(b) for b, (m, meta) in zip(snaps, models) if meta["runnable"] and len(m.graph.output) >= 1
+               and "version-family" not in meta["features"] and meta["kind"] != "vbody"][:40]
     with warnings.catch_warnings():
         warnings.simplefilter("ignore")
         made = 0
@@ -1117,7 +1370,25 @@ def run(ck: core.Check):
 
     rng = ck.rng
     n_hand, n_spox = ck.pick((220, 80), (1100, 380))
-    models, snaps, dropped = make_models(ck, n_hand, n_spox)
+    n_vbody = ck.pick(70, 300)
+    # tie G (escalation, not an obligation): the functions the model transcribes changed since the baseline was
+    # taken -> search the version family three times as wide and with every composition form
+    changed = []
+    try:
+        import pathlib
+
+        base = json.loads((pathlib.Path(__file__).resolve().parent.parent / "c08_source_baseline.json").read_text())
+        now = facts.get("sourceHashes") or {}
+        changed = sorted(k for k in set(base) | set(now) if base.get(k) != now.get(k))
+    except Exception as e:  # noqa: BLE001
+        changed = [f"baseline unreadable: {type(e).__name__}"]
+    ck.cov["covered_sources_changed"] = changed
+    global ESCALATE
+    ESCALATE = bool(changed)
+    if changed:
+        ck.notes.append(f"covered source changed since the baseline ({', '.join(changed)}): version-family counts escalated")
+        n_vbody *= 3
+    models, snaps, dropped = make_models(ck, n_hand, n_spox, n_vbody)
     ck.log(f"{len(models)} models generated ({dropped} invalid candidates dropped)")
     feature_hist: dict[str, int] = {}
     for _, meta in models:
@@ -1150,7 +1421,7 @@ def run(ck: core.Check):
                     if "adapt" in real:
                         rq["adapt"] = {
                             "varNames": list(dict.fromkeys(ctx["argNames"] + ctx["resNames"] + ctx["_adapt"]["extraVarNames"])),
-                            "imports": [o.version for o in mv.opset_import if o.domain in ("", "ai.onnx")],
+                            "importsAll": [[o.domain, o.version] for o in mv.opset_import],
                             "target": ctx["_adapt"]["target"],
                             "converted": real.get("adapt_converted"),
                         }
@@ -1345,7 +1616,13 @@ def _oracle_phase(ck, models, snaps, rng, scope_obs):
             for key, what in oracle_hostile_names(fresh(snaps[mi]), seed2, hv):
                 ck.failure(key, what, {"kind": "hostile-names", "model": L.to_b64(fresh(snaps[mi])), "seed": seed2,
                                        "variants": hv, "summary": L.summary(m), "features": meta["features"]})
-        forms = list(FORMS) if (ck.thorough or meta["kind"] == "corner") else ["once"] + rng.sample(FORMS[1:], 3)
+        family = meta["kind"] == "vbody" or "version-family" in meta["features"]
+        if family:
+            # the version family: always next to operators of a later opset, in several compositions and histories
+            forms = (list(FORMS) + list(MIXED_FORMS)) if (ck.thorough or ESCALATE or meta["kind"] == "corner") else (
+                ["once", "mixed+once"] + rng.sample(MIXED_FORMS[1:], 2) + rng.sample(["mixed-opset", "history", "name-history", "loop-body", "if-body"], 1))
+        else:
+            forms = list(FORMS) if (ck.thorough or meta["kind"] == "corner") else ["once"] + rng.sample(FORMS[1:], 3)
         for form in forms:
             if form == "chained" and "no-chain" in meta["features"]:
                 continue
@@ -1358,7 +1635,8 @@ def _oracle_phase(ck, models, snaps, rng, scope_obs):
                 ck.failure(key, what, {"kind": "compose", "form": form, "model": L.to_b64(m), "seed": seed1,
                                        "summary": L.summary(m), "features": meta["features"]})
         ck.sample({"model": L.summary(m), "features": meta["features"]}, 4)
-    ck.cov.update({"oracle_compositions": n_oracle, "oracle_forms": form_hist, "hostile_outer_names": dict(sorted(HOSTILE_HIST.items()))})
+    ck.cov.update({"oracle_compositions": n_oracle, "oracle_forms": form_hist, "hostile_outer_names": dict(sorted(HOSTILE_HIST.items())),
+                   "onnxruntime_retries_without_optimiser": ORT_FALLBACKS["unoptimised"]})
 
 
 def _finish_evidence(ck):
@@ -1369,11 +1647,17 @@ def _finish_evidence(ck):
         "names, If bodies capturing outer values and sharing local names, empty optional inputs, stray value_info) and "
         "spox-built programs (incl. nested inlining of earlier models) x call forms (correct / surplus / duplicate / "
         "unknown / missing / mistyped) x build-scope states (hostile reserved names and counters) for the "
-        "correspondence; x 7 composition forms under onnxruntime for the oracle; non-trivial = model with >= 1 node"
+        "correspondence; x 10 composition forms under onnxruntime for the oracle; plus the version family (opset 11-17 "
+        "models whose signature-changed / meaning-changed operators sit in If / Loop / Scan bodies at depth 1-2 or at the "
+        "top level, next to ai.onnx.ml / com.microsoft nodes and unused imports) x 7 further forms built next to operators "
+        "of opset 18-21 and ai.onnx.ml 2/4; non-trivial = model with >= 1 node"
     )
     ck.assumptions += [
         "onnxruntime's result on m is what 'm computes' (m is also checked with onnx.checker full_check)",
-        "onnx.version_converter (adapt_inline) is third-party: observed by the mixed-opset oracle only",
+        "onnx.version_converter (adapt_inline) is third-party: observed by the oracle only; its defects on valid models "
+        "(sparse payloads, Hardmax 12->13, duplicate fresh names, captured Softmax result) are known findings, blamed only "
+        "when the converter alone shows them",
+        "a model onnxruntime's optimiser refuses is run with the optimiser switched off before the refusal counts",
         "outer value names chosen by the user of build() do not start with a generated '<node>__' prefix (C02's concern)",
     ]
     ck.trusted_base += [
